@@ -238,3 +238,13 @@
     (bvor (bvand (knightSet (sqbit t)) (pN p))
           (bvand (bishopWalk t occ) (bvor (pB p) (pQ p)))
           (bvand (rookWalk t occ) (bvor (pR p) (pQ p))))))
+; pieces of colour c (king excluded) that can move onto one of the EMPTY squares sq without capturing
+; (art. 3.2-3.7): knights and sliders by their moves, pawns by a single or a double step
+(define-fun blockSet ((p Pos) (c B8) (sq BB)) BB
+  (let ((occ (occOf p)) (me (colSet p c)) (back (other c)))
+  (let ((mid (bvand (pawnPushSet back (bvand sq (ite (= c #x00) #x00000000ff000000 #x000000ff00000000))) (bvnot occ))))
+    (bvand me
+      (bvor (bvand (knightSet sq) (pN p))
+            (bvand (bishopSet sq occ) (bvor (pB p) (pQ p)))
+            (bvand (rookSet sq occ) (bvor (pR p) (pQ p)))
+            (bvand (bvor (pawnPushSet back sq) (pawnPushSet back mid)) (pP p)))))))
